@@ -135,6 +135,17 @@ def make_selector(sel):
 # sources: each returns (file bytes, file name, [pass model]); pass model = {'x': [Fraction], 'x_name', 'channels':
 # [{'name', 'values': [[Fraction per element] per frame]}], 'n'}
 # ------------------------------------------------------------------------------------------------
+PARAM_TEXT = {b'LOC ': (b'LOCATION', b'NW 12-34'), b'COUN': (b'COUNTY NAME', b'KING'), b'STAT': (b'STATE NAME', b'WA'),
+              b'NATI': (b'NATION', b'USA'), b'APIN': (b'API NUMBER', b'12345')}
+
+
+def parameter_set(names):
+    """A PARAMETER set (RP66V1 5.8.2) whose objects feed the LAS well section; the set name is the same in every source."""
+    return {'type': b'PARAMETER', 'name': b'well', 'lrtype': 5,
+            'template': [{'label': b'LONG-NAME', 'code': 20}, {'label': b'VALUES', 'code': 20}],
+            'objects': [{'name': (1, 0, nm), 'comps': [{'values': [PARAM_TEXT[nm][0]]}, {'values': [PARAM_TEXT[nm][1]]}]} for nm in names]}
+
+
 def rp66_source(variant):
     from props import c04
     t0 = [c04.ch('DEPT', 7, [1]), c04.ch('GR', 2, [1]), c04.ch('WAVE', 13, [3])]
@@ -146,6 +157,9 @@ def rp66_source(variant):
     if variant.get('two'):
         types.append({'name': 'FT1', 'channels': t1, 'n': variant.get('n1', 5)})
     lp = {'types': types, 'layout': variant.get('layout', 'one'), 'origin': variant.get('origin', 'full')}
+    params = variant.get('params', [b'STAT', b'LOC '] if variant.get('perm') else [b'LOC ', b'COUN', b'STAT'])
+    if params:
+        lp['extra_sets'] = [parameter_set([p if isinstance(p, bytes) else p.encode() for p in params])]
     if variant.get('two'):
         order = []
         a, b = n0, types[1]['n']
